@@ -15,7 +15,7 @@ GEN = os.path.join(os.environ.get('VERIF_OUT', VERIF), '.gen')
 PROP = 'C14'
 
 PT_OPS = ['setL', 'setS', 'setT', 'unset', 'applyI', 'applyO', 'mut', 'iter', 'check']
-VT_OPS = ['vsetL', 'vsetS', 'vunset', 'vcheck', 'viter']
+VT_OPS = ['vsetL', 'vsetS', 'vsetLL', 'vunset', 'vcheck', 'viter']
 
 TEMPLATE = '''import warnings; warnings.simplefilter('ignore')
 from typing import List
@@ -182,6 +182,10 @@ def gen_vt(types, seq):
         if op == 'vsetL':
             params += ['m%d: int' % k, 'x%d: int' % k]; pre += ['1 <= m%d <= %d' % (k, full)]
             body += ['    for t_ in _sel(m%d):' % k, '        ref[TYPES.index(t_)] = x%d' % k, '    VT[_sel(m%d)] = x%d' % (k, k)]
+        elif op == 'vsetLL':
+            # a list VALUE whose length equals the number of keys is stored whole under every key (not distributed)
+            params += ['m%d: int' % k, 'x%d: int' % k]; pre += ['1 <= m%d <= %d' % (k, full)]
+            body += ['    keys_ = _sel(m%d)' % k, '    val_ = [x%d + i_ for i_ in range(len(keys_))]' % k, '    VT[keys_] = val_', '    for t_ in keys_:', '        ref[TYPES.index(t_)] = val_']
         elif op == 'vsetS':
             params += ['a%d: int' % k, 'x%d: int' % k]; pre += ['0 <= a%d < %d' % (k, n)]
             body += ['    VT[TYPES[a%d]] = x%d' % (k, k), '    ref[a%d] = x%d' % (k, k)]
@@ -216,8 +220,11 @@ def instances(tier):
     if tier == 'thorough':
         for a in mut:
             for b in mut:
+                if a in ('setL', 'setT') and b in ('setL', 'setT'):
+                    continue            # 49 x 49 mask combinations: only the plain pair below, with a long budget
                 out.append(dict(kind='pt', n=3, seq=[a, b], to=400))
-        for seq in (['setL'], ['setL', 'unset'], ['setS', 'setL'], ['setL', 'mut']):
+        out.append(dict(kind='pt', n=3, seq=['setL', 'setL'], to=1500))
+        for seq in (['setL'], ['setL', 'unset'], ['setS', 'setS'], ['setL', 'mut']):
             out.append(dict(kind='pt', n=4, seq=seq, to=600))
     for n in (1, 2, 3, 4):
         for a in VT_OPS:
